@@ -45,6 +45,10 @@ def gen_knobs(rng, profile=None):
         "orjson_opts": rng.random() < 0.3,
         "generic_base": rng.random() < 0.4,
         "aux": rng.random() < 0.25,
+        "any_fields": rng.random() < 0.3,
+        "bytes_fields": rng.random() < 0.3,
+        "strategy_objects": rng.random() < 0.25,
+        "factory_dialects": rng.random() < 0.2,
         "inherit": rng.random() < 0.5,
         "n_outer": rng.randint(1, 3),
         "n_leaf": rng.randint(1, 2),
@@ -109,6 +113,10 @@ class FamilyBuilder:
             return ["date"]
         if x < 0.85:
             return ["opt", r.choice([["int"], ["date"], ["str"]])]
+        if x < 0.88 and self.kn.get("any_fields"):
+            return ["any"]
+        if x < 0.9 and self.kn.get("bytes_fields"):
+            return ["bytes"]
         if x < 0.93 and self.kn["union"]:
             return ["union", ["int"], ["str"], ["date"]] if r.random() < 0.5 else ["union", ["date"], ["int"]]
         if self.kn["nt"] and self.nts:
@@ -153,7 +161,8 @@ class FamilyBuilder:
                 if r.random() < 0.15:
                     cfg[o] = True
             if r.random() < 0.1:
-                cfg["date"] = r.choice(["slash", "ord"])
+                cfg["date"] = r.choice(["slash", "ord"] + (
+                    ["obj_slash", "obj_dot"] if kn.get("strategy_objects") else []))
         if kn.get("orjson_opts") and r.random() < 0.5:
             cfg["orjson_options"] = r.choice([["OPT_SORT_KEYS"], ["OPT_INDENT_2"],
                                               ["OPT_INDENT_2", "OPT_SORT_KEYS"]])
@@ -200,6 +209,8 @@ class FamilyBuilder:
         for i in range(n):
             d = {"name": f"D{i + 1}"}
             d["date"] = r.choice([None, "slash", "ord", "slash"])
+            if self.kn.get("strategy_objects") and r.random() < 0.7:
+                d["date"] = ["obj_slash", "obj_dot"][i % 2]
             if self.kn.get("distinct_dialects"):
                 d["date"] = ["slash", "ord", None][i % 3]
             for o in ("omit_none", "omit_default", "serialize_by_alias", "namedtuple_as_dict"):
@@ -451,6 +462,8 @@ class FamilyBuilder:
             chunks.append(order[prev:cut])
             prev = cut
         spec = {"pep563": kn["pep563"], "dialects": self.dialects, "chunks": chunks}
+        if kn.get("factory_dialects"):
+            spec["factory_dialects"] = True
         if self.aux:
             spec["aux"] = self.aux
         return spec
@@ -501,7 +514,7 @@ class FamilyBuilder:
     @staticmethod
     def _simple_position(t):
         k = t[0]
-        if k in ("cls", "int", "str", "date", "nt", "tv", "acls"):
+        if k in ("cls", "int", "str", "date", "nt", "tv", "acls", "bytes"):
             return True
         if k in ("opt", "list", "dict"):
             return t[1][0] in ("cls", "int", "str", "date")
@@ -552,8 +565,10 @@ def gen_value(rng, fam, t, defined, depth=0, kn=None, discr=None):
         return ["s", rng.choice(STRS)]
     if k == "date":
         return ["d", rng.choice(DATES)]
+    if k == "bytes":
+        return ["b", rng.choice(["", "00ff10", "616263"])]
     if k == "any":
-        return ["i", 1]
+        return rng.choice([["i", 1], ["s", "a"], ["i", 5], ["l", [["i", 1]]]])
     if k == "opt":
         if rng.random() < 0.3 or depth > 3:
             return ["n"]
@@ -666,8 +681,11 @@ def date_fmt(fam, cname, call_dialect):
 
 
 def render_date(s, fmt):
-    if fmt == "slash":
+    if fmt in ("slash", "obj_slash"):
         return s.replace("-", "/")
+    if fmt == "obj_dot":
+        y, m, d = s.split("-")
+        return f"{d}.{m}.{y}"
     if fmt == "ord":
         import datetime
         return datetime.date.fromisoformat(s).toordinal()
@@ -684,6 +702,8 @@ def to_input(fam, v, ctx, discr=None):
         return render_date(v[1], ctx.get("date", "iso"))
     if k == "n":
         return None
+    if k == "b":
+        return {"__bytes__": v[1]}
     if k in ("l", "t"):
         return [to_input(fam, x, ctx) for x in v[1]]
     if k == "m":
@@ -969,7 +989,7 @@ def _types_in(t):
             yield from _types_in(x)
 
 
-def gen_conc(rng, fam, kn, defined, first_bias=None):
+def gen_conc(rng, fam, kn, defined, first_bias=None, codecs=None):
     nthreads = rng.randint(2, 4)
     classes = callable_classes(fam, defined)
     progs = []
@@ -997,6 +1017,22 @@ def gen_conc(rng, fam, kn, defined, first_bias=None):
     for _ in range(nthreads):
         prog = []
         for _ in range(rng.choice([1, 1, 2, 3])):
+            if kn.get("codecs") and codecs and rng.random() < 0.2:
+                # a codec object created earlier in the history, shared by threads
+                base = rng.choice(codecs)
+                op = {k: base[k] for k in ("k", "id", "fmt", "dir", "shape", "dd") if k in base}
+                try:
+                    v = gen_value(rng, fam, op["shape"], defined, kn=kn)
+                except Unbuildable:
+                    v = None
+                if v is not None and (kn.get("subclass_values", True)
+                                      or not has_subclass_instance(fam, v, op["shape"])):
+                    if op["dir"] == "enc":
+                        op["val"] = v
+                    else:
+                        op["inp"] = to_input(fam, v, {"dialect": None, "tagpick": 0})
+                    prog.append(op)
+                    continue
             if kn.get("codecs") and rng.random() < 0.15:
                 # a codec created and used by this thread only (one-shot style ids
                 # are not shared, so creation itself races with the other threads)
@@ -1042,7 +1078,10 @@ def gen_history(rng, spec, kn, n_ops=None):
         if what == "call":
             ops.append(gen_call(rng, fam, kn, defined))
         elif what == "abort":
-            op = gen_call(rng, fam, kn, defined)
+            if kn.get("codecs") and rng.random() < 0.3:
+                op = gen_codec_op(rng, fam, kn, defined, codecs)
+            else:
+                op = gen_call(rng, fam, kn, defined)
             retry = dict(op)
             if rng.random() < 0.3:
                 op["abort_gen"] = rng.randint(1, 60)
@@ -1052,7 +1091,7 @@ def gen_history(rng, spec, kn, n_ops=None):
             if rng.random() < 0.7:
                 ops.append(retry)  # the same call again after the interrupted one
         elif what == "conc":
-            conc = gen_conc(rng, fam, kn, defined)
+            conc = gen_conc(rng, fam, kn, defined, codecs=codecs)
             ops.append(conc)
             if rng.random() < 0.5:
                 # the same calls again, one by one: damage done by the race persists
